@@ -1,7 +1,8 @@
 import GrpcModel.Model.XdsAuth
+import GrpcModel.Model.XdsAuthSpec
 /-! Helper lemmas for C43 / C44 (model: GrpcModel/Model/XdsAuth.lean, layer A). -/
 namespace GrpcProofs.Lemmas.XdsAuth
-open GrpcModel.XdsAuth
+open GrpcModel.XdsAuth GrpcModel.XdsAuth.Spec
 
 theorem mem_bcast {r : RState} {ks : List CbKind} {cb : Cb} :
     cb ∈ bcast r ks ↔ cb.w ∈ r.watchers ∧ cb.k ∈ ks := by
@@ -542,5 +543,628 @@ theorem run_snoc (a : Auth) (es : List AEv) (e : AEv) :
   induction es generalizing a with
   | nil => rfl
   | cons x xs ih => simp only [List.cons_append, Auth.run]; exact ih _
+
+
+/-! ### the callbacks of one watcher -/
+
+theorem cbsFor_append (w : Nat) (l1 l2 : List Cb) : cbsFor w (l1 ++ l2) = cbsFor w l1 ++ cbsFor w l2 := by
+  simp [cbsFor]
+
+theorem cbsFor_nil (w : Nat) : cbsFor w [] = [] := rfl
+
+theorem cbsFor_map_same (w : Nat) (ks : List CbKind) : cbsFor w (ks.map fun k => (⟨w, k⟩ : Cb)) = ks := by
+  induction ks with
+  | nil => rfl
+  | cons k ks ih =>
+    simp only [cbsFor, List.map_cons, List.filter_cons, decide_true, ↓reduceIte, List.cons.injEq, true_and] at ih ⊢
+    exact ih
+
+theorem cbsFor_map_other {w w' : Nat} (h : w' ≠ w) (ks : List CbKind) :
+    cbsFor w (ks.map fun k => (⟨w', k⟩ : Cb)) = [] := by
+  induction ks with
+  | nil => rfl
+  | cons k ks ih =>
+    simp only [cbsFor, List.map_cons, List.filter_cons, h, decide_false, Bool.false_eq_true, ↓reduceIte] at ih ⊢
+    exact ih
+
+def bcastL (ws : List Nat) (ks : List CbKind) : List Cb := ws.flatMap fun w => ks.map fun k => ⟨w, k⟩
+
+theorem cbsFor_bcastL_not_mem {ws : List Nat} {w : Nat} (ks : List CbKind) (h : w ∉ ws) :
+    cbsFor w (bcastL ws ks) = [] := by
+  induction ws with
+  | nil => rfl
+  | cons x xs ih =>
+    simp only [List.mem_cons, not_or] at h
+    simp only [bcastL, List.flatMap_cons, cbsFor_append]
+    rw [cbsFor_map_other (Ne.symm h.1)]
+    have := ih h.2
+    simp only [bcastL] at this
+    rw [this]; rfl
+
+theorem cbsFor_bcastL_mem {ws : List Nat} {w : Nat} (ks : List CbKind) (hnd : ws.Nodup) (h : w ∈ ws) :
+    cbsFor w (bcastL ws ks) = ks := by
+  induction ws with
+  | nil => simp at h
+  | cons x xs ih =>
+    simp only [bcastL, List.flatMap_cons, cbsFor_append]
+    rw [List.nodup_cons] at hnd
+    by_cases hx : x = w
+    · subst hx
+      rw [cbsFor_map_same]
+      have := cbsFor_bcastL_not_mem ks hnd.1
+      simp only [bcastL] at this
+      rw [this]; simp
+    · rw [cbsFor_map_other hx]
+      simp only [List.mem_cons] at h
+      rcases h with h | h
+      · exact absurd h.symm hx
+      · have := ih hnd.2 h
+        simp only [bcastL] at this
+        simpa using this
+
+theorem cbsFor_bcast_not_mem {r : RState} {w : Nat} (ks : List CbKind) (h : w ∉ r.watchers) :
+    cbsFor w (bcast r ks) = [] := cbsFor_bcastL_not_mem ks h
+
+theorem cbsFor_bcast_mem {r : RState} {w : Nat} (ks : List CbKind) (hnd : r.watchers.Nodup) (h : w ∈ r.watchers) :
+    cbsFor w (bcast r ks) = ks := cbsFor_bcastL_mem ks hnd h
+
+/-- all registered watcher ids, with multiplicity -/
+def allWatchers (res : List (Key × RState)) : List Nat := res.flatMap (·.2.watchers)
+
+theorem cbsFor_flatMap_not_mem {res : List (Key × RState)} {w : Nat} (f : Key × RState → List CbKind)
+    (h : ∀ p ∈ res, w ∉ p.2.watchers) : cbsFor w (res.flatMap fun q => bcast q.2 (f q)) = [] := by
+  induction res with
+  | nil => rfl
+  | cons q qs ih =>
+    simp only [List.flatMap_cons, cbsFor_append]
+    rw [cbsFor_bcast_not_mem _ (h q (by simp)), ih (fun p hp => h p (by simp [hp]))]; rfl
+
+theorem cbsFor_flatMap_mem {res : List (Key × RState)} {w : Nat} (f : Key × RState → List CbKind)
+    (hnd : (allWatchers res).Nodup) {p : Key × RState} (hp : p ∈ res) (hw : w ∈ p.2.watchers) :
+    cbsFor w (res.flatMap fun q => bcast q.2 (f q)) = f p := by
+  induction res with
+  | nil => simp at hp
+  | cons q qs ih =>
+    simp only [allWatchers, List.flatMap_cons] at hnd
+    rw [List.nodup_append] at hnd
+    obtain ⟨h1, h2, h3⟩ := hnd
+    simp only [List.flatMap_cons, cbsFor_append]
+    simp only [List.mem_cons] at hp
+    rcases hp with rfl | hp
+    · rw [cbsFor_bcast_mem _ h1 hw, cbsFor_flatMap_not_mem]
+      · simp
+      · intro p' hp' hw'
+        exact h3 w hw w (by simp only [List.mem_flatMap]; exact ⟨p', hp', hw'⟩) rfl
+    · have hq : w ∉ q.2.watchers := by
+        intro hwq
+        exact h3 w hwq w (by simp only [List.mem_flatMap]; exact ⟨p, hp, hw⟩) rfl
+      rw [cbsFor_bcast_not_mem _ hq, ih h2 hp]; rfl
+
+
+theorem map_keys_eq {f : Key × RState → Key × RState} (h : ∀ p, (f p).1 = p.1) (l : List (Key × RState)) :
+    (l.map f).map (·.1) = l.map (·.1) := by
+  simp [List.map_map, Function.comp_def, h]
+
+theorem allWatchers_map_eq {f : Key × RState → Key × RState} (h : ∀ p, (f p).2.watchers = p.2.watchers)
+    (l : List (Key × RState)) : allWatchers (l.map f) = allWatchers l := by
+  simp [allWatchers, List.flatMap_map, h]
+
+theorem lookup_none_not_mem {res : List (Key × RState)} {k : Key} (h : lookup res k = none) : k ∉ res.map (·.1) := by
+  unfold lookup at h
+  simp only [Option.map_eq_none_iff, List.find?_eq_none, decide_eq_true_eq] at h
+  simp only [List.mem_map, not_exists, not_and]
+  intro p hp hk
+  exact h p hp hk
+
+theorem allWatchers_sublist_drop (k : Key) (w : Nat) (res : List (Key × RState)) :
+    (allWatchers (res.map (dropWatcher k w))).Sublist (allWatchers res) := by
+  induction res with
+  | nil => simp [allWatchers]
+  | cons p ps ih =>
+    simp only [allWatchers, List.map_cons, List.flatMap_cons] at ih ⊢
+    apply List.Sublist.append _ ih
+    unfold dropWatcher
+    split
+    · exact List.filter_sublist
+    · exact List.Sublist.refl _
+
+theorem allWatchers_sublist_filter (q : Key × RState → Bool) (res : List (Key × RState)) :
+    (allWatchers (res.filter q)).Sublist (allWatchers res) := by
+  induction res with
+  | nil => simp [allWatchers]
+  | cons p ps ih =>
+    simp only [allWatchers, List.filter_cons, List.flatMap_cons] at ih ⊢
+    split
+    · simp only [List.flatMap_cons]; exact List.Sublist.append (List.Sublist.refl _) ih
+    · exact List.Sublist.trans ih (List.sublist_append_right _ _)
+
+theorem allWatchers_add {k : Key} {w : Nat} {res : List (Key × RState)} (hk : (res.map (·.1)).Nodup)
+    (hnd : (allWatchers res).Nodup) (hf : ∀ p ∈ res, w ∉ p.2.watchers) :
+    (allWatchers (res.map (addWatcher k w))).Nodup := by
+  induction res with
+  | nil => simp [allWatchers]
+  | cons p ps ih =>
+    simp only [List.map_cons, List.nodup_cons] at hk
+    simp only [allWatchers, List.flatMap_cons] at hnd
+    rw [List.nodup_append] at hnd
+    obtain ⟨h1, h2, h3⟩ := hnd
+    have ih' := ih hk.2 h2 (fun p hp => hf p (by simp [hp]))
+    simp only [allWatchers, List.map_cons, List.flatMap_cons] at ih' ⊢
+    rw [List.nodup_append]
+    by_cases hpk : p.1 = k
+    · have hrest : ps.map (addWatcher k w) = ps := by
+        rw [List.map_congr_left (g := id)]
+        · simp
+        · intro q hq
+          unfold addWatcher
+          split
+          · rename_i hqk
+            exfalso; apply hk.1
+            simp only [List.mem_map]; exact ⟨q, hq, by rw [hqk, hpk]⟩
+          · rfl
+      rw [hrest]
+      simp only [addWatcher, hpk, ↓reduceIte]
+      refine ⟨?_, h2, ?_⟩
+      · rw [List.nodup_append]
+        refine ⟨h1, by simp, ?_⟩
+        intro x hx y hy
+        simp only [List.mem_singleton] at hy
+        subst hy
+        intro hxy; subst hxy
+        exact hf p (by simp) hx
+      · intro x hx y hy
+        simp only [List.mem_append, List.mem_singleton] at hx
+        rcases hx with hx | rfl
+        · exact h3 x hx y hy
+        · intro hxy; subst hxy
+          simp only [List.mem_flatMap] at hy
+          obtain ⟨q, hq, hxq⟩ := hy
+          exact hf q (by simp [hq]) hxq
+    · simp only [addWatcher, hpk, ↓reduceIte]
+      refine ⟨h1, ih', ?_⟩
+      intro x hx y hy
+      simp only [List.mem_flatMap, List.mem_map] at hy
+      obtain ⟨_, ⟨q, hq, rfl⟩, hy⟩ := hy
+      unfold addWatcher at hy
+      split at hy
+      · simp only [List.mem_append, List.mem_singleton] at hy
+        rcases hy with hy | rfl
+        · exact h3 x hx y (by simp only [List.mem_flatMap]; exact ⟨q, hq, hy⟩)
+        · intro hxy; subst hxy; exact hf p (by simp) hx
+      · exact h3 x hx y (by simp only [List.mem_flatMap]; exact ⟨q, hq, hy⟩)
+
+
+/-- invariant of the authority's resource table in every reachable state -/
+structure AInv (a : Auth) : Prop where
+  keys : (a.res.map (·.1)).Nodup
+  wnd : (allWatchers a.res).Nodup
+  rinv : ∀ p ∈ a.res, RInv p.2
+
+/-- `watch` events use a watcher that is not registered (each watch call creates a new watcher object) -/
+def Fresh (a : Auth) : AEv → Prop
+  | .watch _ w => ∀ p ∈ a.res, w ∉ p.2.watchers
+  | _ => True
+
+theorem inv_init (n : Nat) (ign : List Bool) : AInv (Auth.init n ign) := by
+  constructor <;> simp [Auth.init, allWatchers]
+
+theorem rinv_sameCore {q p : Key × RState} (h : SameCore q p) (hr : RInv p.2) : RInv q.2 := by
+  obtain ⟨x, rfl⟩ := h
+  exact ⟨hr.1, hr.2, hr.3, hr.4⟩
+
+theorem inv_map {a : Auth} {f : Key × RState → Key × RState} (hi : AInv a)
+    (hk : ∀ p, (f p).1 = p.1) (hw : ∀ p, (f p).2.watchers = p.2.watchers) (hr : ∀ p ∈ a.res, RInv (f p).2)
+    {a' : Auth} (hres : a'.res = a.res.map f) : AInv a' := by
+  constructor
+  · rw [hres, map_keys_eq hk]; exact hi.keys
+  · rw [hres, allWatchers_map_eq hw]; exact hi.wnd
+  · intro p hp
+    rw [hres] at hp
+    simp only [List.mem_map] at hp
+    obtain ⟨q, hq, rfl⟩ := hp
+    exact hr q hq
+
+theorem inv_step {a : Auth} {e : AEv} (hi : AInv a) (hf : Fresh a e) : AInv (a.step e).auth := by
+  cases e with
+  | update srv gen typ ver es =>
+    simp only [Auth.step]
+    rcases handleUpdate_shape a srv typ ver es with ⟨_, h⟩ | ⟨_, g, hg, hres, _, _⟩
+    · rw [h]; exact hi
+    · rw [List.map_map] at hres
+      refine inv_map hi ?_ ?_ ?_ hres
+      · intro p; simp only [Function.comp]; rw [(updFull_key ..).1, (sameCore_fields (sameCore_of_g hg p)).1]
+      · intro p; simp only [Function.comp]; rw [(updFull_key ..).2.1, (sameCore_fields (sameCore_of_g hg p)).2.1]
+      · intro p hp; exact rinv_updFull (rinv_sameCore (sameCore_of_g hg p) (hi.rinv p hp))
+  | dne k =>
+    refine inv_map (f := fun p => if p.1 = k then (p.1, { p.2 with cache := none, status := .notExist, version := "", err := none }) else p) hi ?_ ?_ ?_ rfl
+    · intro p; split <;> rfl
+    · intro p; split <;> rfl
+    · intro p hp; split
+      · constructor <;> simp
+      · exact hi.rinv p hp
+  | failure srv after =>
+    simp only [Auth.step, handleFailure]
+    split
+    · exact hi
+    · split
+      · exact hi
+      · split
+        · refine inv_map (f := fun p => (p.1, { p.2 with chans := p.2.chans ++ [_] })) hi ?_ ?_ ?_ rfl
+          · intro p; rfl
+          · intro p; rfl
+          · intro p hp; exact ⟨(hi.rinv p hp).1, (hi.rinv p hp).2, (hi.rinv p hp).3, (hi.rinv p hp).4⟩
+        · exact hi
+  | watch k w =>
+    simp only [Fresh] at hf
+    simp only [Auth.step, watch]
+    split
+    · rename_i hl
+      constructor
+      · simp only [List.map_append, List.map_cons, List.map_nil]
+        rw [List.nodup_append]
+        refine ⟨hi.keys, by simp, ?_⟩
+        intro x hx y hy
+        simp only [List.mem_singleton] at hy
+        subst hy
+        intro hxy; subst hxy
+        exact lookup_none_not_mem hl hx
+      · simp only [allWatchers, List.flatMap_append, List.flatMap_cons, List.flatMap_nil, List.append_nil, newRState]
+        rw [List.nodup_append]
+        refine ⟨hi.wnd, by simp, ?_⟩
+        intro x hx y hy
+        simp only [List.mem_singleton] at hy
+        subst hy
+        intro hxy; subst hxy
+        simp only [List.mem_flatMap] at hx
+        obtain ⟨p, hp, hxp⟩ := hx
+        exact hf p hp hxp
+      · intro p hp
+        simp only [List.mem_append, List.mem_singleton] at hp
+        rcases hp with hp | rfl
+        · exact hi.rinv p hp
+        · constructor <;> simp [newRState]
+    · constructor
+      · show ((a.res.map (addWatcher k w)).map (·.1)).Nodup
+        rw [map_keys_eq]
+        · exact hi.keys
+        · intro p; unfold addWatcher; split <;> rfl
+      · exact allWatchers_add hi.keys hi.wnd hf
+      · intro p hp
+        change p ∈ a.res.map (addWatcher k w) at hp
+        simp only [List.mem_map] at hp
+        obtain ⟨q, hq, rfl⟩ := hp
+        have := hi.rinv q hq
+        unfold addWatcher; split
+        · exact ⟨this.1, this.2, this.3, this.4⟩
+        · exact this
+  | unwatch k w =>
+    simp only [Auth.step, unwatch]
+    split
+    · exact hi
+    · split
+      · constructor
+        · show ((a.res.map (dropWatcher k w)).map (·.1)).Nodup
+          rw [map_keys_eq]
+          · exact hi.keys
+          · intro p; unfold dropWatcher; split <;> rfl
+        · exact List.Nodup.sublist (allWatchers_sublist_drop k w a.res) hi.wnd
+        · intro p hp
+          change p ∈ a.res.map (dropWatcher k w) at hp
+          simp only [List.mem_map] at hp
+          obtain ⟨q, hq, rfl⟩ := hp
+          have := hi.rinv q hq
+          unfold dropWatcher; split
+          · exact ⟨this.1, this.2, this.3, this.4⟩
+          · exact this
+      · split
+        · constructor <;> simp [allWatchers]
+        · constructor
+          · show ((a.res.filter (·.1 ≠ k)).map (·.1)).Nodup
+            exact List.Nodup.sublist (List.Sublist.map _ List.filter_sublist) hi.keys
+          · exact List.Nodup.sublist (allWatchers_sublist_filter _ a.res) hi.wnd
+          · intro p hp
+            change p ∈ a.res.filter (·.1 ≠ k) at hp
+            exact hi.rinv p (List.mem_filter.mp hp).1
+
+
+theorem bcast_congr {r r' : RState} (h : r'.watchers = r.watchers) (ks : List CbKind) : bcast r' ks = bcast r ks := by
+  unfold bcast; rw [h]
+
+theorem cbsFor_processUpdate {a : Auth} (hnd : (allWatchers a.res).Nodup) (srv : Nat) (typ ver : String)
+    (es : List (String × Upd)) (w : Nat) :
+    (∀ p ∈ a.res, w ∈ p.2.watchers →
+       cbsFor w (processUpdate a srv typ ver es).2 = updKinds typ ver (ignOf a srv) es p) ∧
+    ((∀ p ∈ a.res, w ∉ p.2.watchers) → cbsFor w (processUpdate a srv typ ver es).2 = []) := by
+  have h2 : ∀ ign, ((a.res.map fun p => (updRes typ ver es p).1).flatMap fun p => bcast p.2 (delRes typ ign es p).2)
+      = a.res.flatMap fun p => bcast p.2 (delRes typ ign es (updRes typ ver es p).1).2 := by
+    intro ign
+    rw [List.flatMap_map]
+    congr 1; funext p
+    exact bcast_congr (updRes_watchers typ ver es p).1 _
+  unfold processUpdate updKinds
+  by_cases hs : sotw typ = true
+  · simp only [hs, Bool.not_true, Bool.false_eq_true, ↓reduceIte, h2, cbsFor_append]
+    constructor
+    · intro p hp hw
+      rw [cbsFor_flatMap_mem _ hnd hp hw, cbsFor_flatMap_mem _ hnd hp hw]
+    · intro h
+      rw [cbsFor_flatMap_not_mem _ h, cbsFor_flatMap_not_mem _ h]; rfl
+  · simp only [hs, Bool.not_false, ↓reduceIte, Bool.false_eq_true, List.append_nil]
+    constructor
+    · intro p hp hw
+      rw [cbsFor_flatMap_mem _ hnd hp hw]
+    · intro h
+      rw [cbsFor_flatMap_not_mem _ h]
+
+/-- the ghost of a watcher agrees with the resource it watches -/
+def AgreeR (g : WG) (r : RState) : Prop := g.holds = r.cache ∧ (r.err.isSome = true → g.nack = true)
+
+/-- one resource, one update: no forbidden callback, and agreement is kept -/
+theorem agree_upd {typ ver : String} {ign : Bool} {es : List (String × Upd)} {q : Key × RState} {g : WG}
+    (h : AgreeR g q.2) :
+    okSeq g (updKinds typ ver ign es q) = true ∧
+    AgreeR ((updKinds typ ver ign es q).foldl WG.apply g) (updFull typ ver ign es q).2 := by
+  obtain ⟨h1, h2⟩ := h
+  by_cases ht : q.1.typ = typ
+  · cases he : entLookup es q.1.name with
+    | some u =>
+      cases u with
+      | ok c =>
+        rw [updKinds_ok ht he, (upd_present ht he).2]
+        simp only [updOne, onOk]
+        by_cases hc : q.2.cache = some c
+        · by_cases herr : q.2.err.isSome = true
+          · have hn := h2 herr
+            simp [hc, herr, okSeq, WG.dup, WG.apply, AgreeR, hn]
+          · simp [hc, herr, okSeq, AgreeR, h1]
+        · have : ¬ g.holds = some c := by rw [h1]; exact hc
+          simp [hc, okSeq, WG.dup, WG.apply, AgreeR, this]
+      | bad t =>
+        rw [updKinds_bad ht he, (upd_present ht he).2]
+        simp only [updOne, onBad]
+        by_cases hd : q.2.err.map (·.1) = some t
+        · have : q.2.err.isSome = true := by cases hq : q.2.err <;> simp [hq] at hd ⊢
+          simp [hd, okSeq, AgreeR, h1, h2 this]
+        · cases hc : q.2.cache with
+          | none => simp [hd, hc, okSeq, WG.dup, WG.apply, AgreeR]
+          | some c => simp [hd, hc, okSeq, WG.dup, WG.apply, AgreeR, h1]
+    | none =>
+      rw [updKinds_absent ht he, (upd_absent ht he).2]
+      by_cases hcond : sotw typ = true ∧ q.2.cache.isSome = true ∧ q.2.status ≠ .notExist ∧ ign = false
+      · obtain ⟨hs, hc, hst, hi⟩ := hcond
+        have hc' : q.2.cache.isNone = false := by cases hq : q.2.cache <;> simp [hq] at hc ⊢
+        simp [hs, hc, hst, hi, okSeq, WG.dup, WG.apply, AgreeR, delOne, hc']
+      · simp only [hcond, ↓reduceIte, okSeq, List.foldl_nil, true_and]
+        split
+        · unfold delOne
+          repeat' split
+          all_goals first | exact ⟨h1, h2⟩ | (exfalso; apply hcond; simp_all)
+        · exact ⟨h1, h2⟩
+  · rw [(upd_other ht).1, (upd_other ht).2]
+    exact ⟨rfl, h1, h2⟩
+
+
+def Agree (a : Auth) (G : Nat → WG) : Prop := ∀ p ∈ a.res, ∀ w ∈ p.2.watchers, AgreeR (G w) p.2
+
+theorem eq_of_key_eq {res : List (Key × RState)} (hk : (res.map (·.1)).Nodup) {p q : Key × RState}
+    (hp : p ∈ res) (hq : q ∈ res) (h : p.1 = q.1) : p = q := by
+  induction res with
+  | nil => simp at hp
+  | cons x xs ih =>
+    simp only [List.map_cons, List.nodup_cons, List.mem_map, not_exists, not_and] at hk
+    simp only [List.mem_cons] at hp hq
+    rcases hp with rfl | hp <;> rcases hq with rfl | hq
+    · rfl
+    · exact absurd h.symm (hk.1 q hq)
+    · exact absurd h (hk.1 p hp)
+    · exact ih hk.2 hp hq
+
+theorem okSeq_initial (r : RState) : okSeq {} (initialKinds r) = true := by
+  unfold initialKinds
+  cases r.cache <;> cases hs : r.status <;> cases he : r.err <;> simp [okSeq, WG.dup, WG.apply]
+  all_goals (try split) <;> simp [okSeq, WG.dup, WG.apply]
+
+theorem agree_initial {r : RState} (hr : RInv r) : AgreeR ((initialKinds r).foldl WG.apply {}) r := by
+  obtain ⟨h1, h2, h3, h4⟩ := hr
+  unfold initialKinds AgreeR
+  cases hc : r.cache <;> cases hs : r.status <;> cases he : r.err <;> simp_all [WG.apply]
+  all_goals (try split) <;> simp_all [WG.apply]
+
+theorem handleUpdate_cbsFor {a : Auth} (hnd : (allWatchers a.res).Nodup) (srv : Nat) (typ ver : String)
+    (es : List (String × Upd)) (hcont : (revert a srv).2.2 = true) (w : Nat) :
+    (∀ p ∈ a.res, w ∈ p.2.watchers →
+       cbsFor w (handleUpdate a srv typ ver es).cbs = updKinds typ ver (ignOf a srv) es p) ∧
+    ((∀ p ∈ a.res, w ∉ p.2.watchers) → cbsFor w (handleUpdate a srv typ ver es).cbs = []) := by
+  cases hact : a.active with
+  | none => simp [revert_none hact] at hcont
+  | some act =>
+    by_cases h1 : srv = act
+    · subst h1
+      simp only [handleUpdate, revert_same hact, ↓reduceIte]
+      exact cbsFor_processUpdate hnd srv typ ver es w
+    · by_cases h2 : act < srv
+      · simp [revert_below hact h2] at hcont
+      · have h3 : srv < act := by omega
+        simp only [handleUpdate, revert_above hact h3, ↓reduceIte]
+        have hnd' : (allWatchers (revertTo a srv).res).Nodup := by
+          simp only [revertTo]
+          rw [allWatchers_map_eq (f := restrictChans srv) (fun p => rfl)]; exact hnd
+        have := cbsFor_processUpdate hnd' srv typ ver es w
+        constructor
+        · intro p hp hw
+          have := this.1 (restrictChans srv p) (by simp only [revertTo]; exact List.mem_map_of_mem hp) hw
+          rw [this]
+          exact updKinds_chans ..
+        · intro h
+          apply this.2
+          intro p' hp'
+          simp only [revertTo, List.mem_map] at hp'
+          obtain ⟨p, hp, rfl⟩ := hp'
+          exact h p hp
+
+theorem agreeR_sameCore {g : WG} {q p : Key × RState} (h : SameCore q p) (ha : AgreeR g p.2) : AgreeR g q.2 := by
+  obtain ⟨x, rfl⟩ := h; exact ha
+
+theorem ghost_step {a : Auth} {G : Nat → WG} {e : AEv} (hi : AInv a) (hg : Agree a G) (hf : Fresh a e) :
+    (∀ w, okSeq (ghost0 G e w) (cbsFor w (a.step e).cbs) = true) ∧
+    Agree (a.step e).auth (ghostStep G e (a.step e).cbs) := by
+  cases e with
+  | update srv gen typ ver es =>
+    simp only [Auth.step, ghost0, ghostStep]
+    rcases handleUpdate_shape a srv typ ver es with ⟨_, h⟩ | ⟨hcont, g, hgg, hres, _, _⟩
+    · rw [h]
+      refine ⟨fun w => rfl, ?_⟩
+      intro p hp w hw
+      exact hg p hp w hw
+    · have hcb := handleUpdate_cbsFor hi.wnd srv typ ver es hcont
+      constructor
+      · intro w
+        by_cases hex : ∃ p ∈ a.res, w ∈ p.2.watchers
+        · obtain ⟨p, hp, hw⟩ := hex
+          rw [(hcb w).1 p hp hw]
+          exact (agree_upd (hg p hp w hw)).1
+        · rw [(hcb w).2 (by intro p hp hw; exact hex ⟨p, hp, hw⟩)]; rfl
+      · intro p'' hp'' w hw
+        rw [hres] at hp''
+        simp only [List.mem_map] at hp''
+        obtain ⟨_, ⟨p, hp, rfl⟩, rfl⟩ := hp''
+        have hsc := sameCore_of_g hgg p
+        have hw' : w ∈ p.2.watchers := by
+          rw [(updFull_key ..).2.1, (sameCore_fields hsc).2.1] at hw; exact hw
+        simp only [ghostStep, ghost0]
+        rw [(hcb w).1 p hp hw', ← updKinds_sameCore hsc]
+        exact (agree_upd (agreeR_sameCore hsc (hg p hp w hw'))).2
+  | dne k =>
+    simp only [Auth.step, handleDNE, ghost0, ghostStep]
+    constructor
+    · intro w
+      by_cases hex : ∃ p ∈ a.res, w ∈ p.2.watchers
+      · obtain ⟨p, hp, hw⟩ := hex
+        rw [cbsFor_flatMap_mem _ hi.wnd hp hw]
+        split <;> simp [okSeq, WG.dup]
+      · rw [cbsFor_flatMap_not_mem _ (by intro p hp hw; exact hex ⟨p, hp, hw⟩)]; rfl
+    · intro p' hp' w hw
+      simp only [List.mem_map] at hp'
+      obtain ⟨p, hp, rfl⟩ := hp'
+      have hw' : w ∈ p.2.watchers := by split at hw <;> exact hw
+      simp only [ghostStep, ghost0]
+      rw [cbsFor_flatMap_mem _ hi.wnd hp hw']
+      have := hg p hp w hw'
+      split
+      · simp [AgreeR, WG.apply]
+      · exact this
+  | failure srv after =>
+    simp only [Auth.step, handleFailure, ghost0, ghostStep]
+    have hprop : (∀ w, okSeq (G w) (cbsFor w (propagate a)) = true) ∧
+        Agree a (fun w => (cbsFor w (propagate a)).foldl WG.apply (G w)) := by
+      unfold propagate
+      constructor
+      · intro w
+        by_cases hex : ∃ p ∈ a.res, w ∈ p.2.watchers
+        · obtain ⟨p, hp, hw⟩ := hex
+          rw [cbsFor_flatMap_mem _ hi.wnd hp hw]
+          split <;> simp [okSeq, WG.dup]
+        · rw [cbsFor_flatMap_not_mem _ (by intro p hp hw; exact hex ⟨p, hp, hw⟩)]; rfl
+      · intro p hp w hw
+        simp only []
+        rw [cbsFor_flatMap_mem _ hi.wnd hp hw]
+        have := hg p hp w hw
+        cases hc : p.2.cache with
+        | none => simp [AgreeR, WG.apply, hc]; exact this.2
+        | some c => simp [AgreeR, WG.apply, hc]; exact ⟨by rw [this.1, hc], this.2⟩
+    have hprop' : (∀ w, okSeq (G w) (cbsFor w (propagate a)) = true) ∧
+        Agree a (ghostStep G (.failure srv after) (propagate a)) := hprop
+    split
+    · exact ⟨fun w => rfl, fun p hp w hw => hg p hp w hw⟩
+    · split
+      · exact hprop'
+      · split
+        · refine ⟨fun w => rfl, ?_⟩
+          intro p' hp' w hw
+          simp only [fallbackTo, List.mem_map] at hp'
+          obtain ⟨p, hp, rfl⟩ := hp'
+          exact hg p hp w hw
+        · exact hprop'
+  | watch k w' =>
+    simp only [Fresh] at hf
+    simp only [Auth.step, watch]
+    split
+    · rename_i hl
+      have hnil : initialCbs w' (newRState w' (channelToUse a).2.2) = [] := by
+        simp [initialCbs, initialKinds, newRState]
+      simp only [hnil]
+      refine ⟨fun w => rfl, ?_⟩
+      intro p' hp' w hw
+      simp only [ghostStep, ghost0, cbsFor_nil, List.foldl_nil]
+      simp only [List.mem_append, List.mem_singleton] at hp'
+      rcases hp' with hp' | rfl
+      · have hne : ¬ w' = w := by intro h; subst h; exact hf p' hp' hw
+        simp only [hne, ↓reduceIte]
+        exact hg p' hp' w hw
+      · simp only [newRState, List.mem_singleton] at hw
+        subst hw
+        simp [AgreeR, newRState]
+    · rename_i r hl
+      have hm := lookup_mem hl
+      have hcb : ∀ w, cbsFor w (initialCbs w' r) = if w' = w then initialKinds r else [] := by
+        intro w
+        unfold initialCbs
+        by_cases h : w' = w
+        · subst h; simp [cbsFor_map_same]
+        · simp [h, cbsFor_map_other h]
+      constructor
+      · intro w
+        rw [hcb]
+        by_cases h : w' = w
+        · simp only [ghost0, h, ↓reduceIte]; exact okSeq_initial r
+        · simp only [h, ↓reduceIte]; rfl
+      · intro p' hp' w hw
+        change p' ∈ a.res.map (addWatcher k w') at hp'
+        simp only [List.mem_map] at hp'
+        obtain ⟨p, hp, rfl⟩ := hp'
+        simp only [ghostStep, ghost0, hcb]
+        by_cases hwe : w' = w
+        · subst hwe
+          simp only [↓reduceIte]
+          unfold addWatcher at hw ⊢
+          split at hw
+          · rename_i hpk
+            have : p = (k, r) := eq_of_key_eq hi.keys hp hm hpk
+            subst this
+            simp only [↓reduceIte]
+            exact agree_initial (hi.rinv _ hm)
+          · exact absurd hw (hf p hp)
+        · simp only [hwe, ↓reduceIte, List.foldl_nil]
+          by_cases hpk : p.1 = k
+          · simp only [addWatcher, hpk, ↓reduceIte, List.mem_append, List.mem_singleton] at hw ⊢
+            rcases hw with hw | hw
+            · exact hg p hp w hw
+            · exact absurd hw.symm hwe
+          · simp only [addWatcher, hpk, ↓reduceIte] at hw ⊢
+            exact hg p hp w hw
+  | unwatch k w' =>
+    simp only [Auth.step, unwatch]
+    split
+    · exact ⟨fun w => rfl, fun p hp w hw => hg p hp w hw⟩
+    · split
+      · refine ⟨fun w => rfl, ?_⟩
+        intro p' hp' w hw
+        change p' ∈ a.res.map (dropWatcher k w') at hp'
+        simp only [List.mem_map] at hp'
+        obtain ⟨p, hp, rfl⟩ := hp'
+        simp only [ghostStep, ghost0, cbsFor_nil, List.foldl_nil]
+        unfold dropWatcher at hw ⊢
+        split at hw
+        · simp only [List.mem_filter] at hw
+          simp only [↓reduceIte, *]
+          exact hg p hp w hw.1
+        · simp only [↓reduceIte, *]
+          exact hg p hp w hw
+      · split
+        · exact ⟨fun w => rfl, fun p hp w hw => by simp at hp⟩
+        · refine ⟨fun w => rfl, ?_⟩
+          intro p' hp' w hw
+          change p' ∈ a.res.filter (·.1 ≠ k) at hp'
+          exact hg p' (List.mem_filter.mp hp').1 w hw
 
 end GrpcProofs.Lemmas.XdsAuth
